@@ -515,7 +515,14 @@ func (g *exprGen) gen(k model.Kind, depth int) *enode {
 
 var tempNames = []string{"const-temp-0", "const-temp-1", "colcol-temp-0", "colcol-temp-1", "unary-temp-0"}
 
+type heldEval struct {
+	res  qframe.QFrame
+	want *model.Frame
+	desc string
+}
+
 func runC07(c *fw.Case) {
+	var held []heldEval
 	rng := c.Rng
 	maxRows := 120
 	if rng.Intn(30) == 0 {
@@ -629,6 +636,22 @@ func runC07(c *fw.Case) {
 				key = "differs:dst-is-reserved-temp-name"
 			}
 			c.Fail(key, "%s on frame (index %s): %s", desc, root.Shape, d)
+		} else if len(held) < 8 {
+			held = append(held, heldEval{res, want, desc})
+		}
+	}
+	// every result is observed a second time after all later Evals on the same frame
+	for _, h := range held {
+		if c.Failed() {
+			break
+		}
+		c.Eval(1)
+		c.Count("delayed_reobservations", 1)
+		got, oerr := model.ObserveGuard(h.res)
+		if oerr != nil {
+			c.Fail("observe:delayed", "%s: second observation after later Evals on the same frame: %v", h.desc, oerr)
+		} else if d := model.Diff(h.want, got); d != "" {
+			c.Fail("differs:delayed", "result of %s was correct when returned but differs after later Evals on the same frame: %s", h.desc, d)
 		}
 	}
 
@@ -653,12 +676,16 @@ func runC07(c *fw.Case) {
 			cfg  []eval.ConfigFunc
 			want *model.Col
 		}
-		for _, rn := range []run{{"overriding context", []eval.ConfigFunc{eval.EvalContext(other)}, wantOther}, {"default context", nil, wantAbs}, {"case context", []eval.ConfigFunc{eval.EvalContext(ctx)}, wantAbs}} {
+		// one Expression value serves all three evaluations (an expression built once and evaluated under several contexts)
+		absExpr := qframe.Expr("abs", types.ColumnName(ic.name))
+		runs := []run{{"overriding context", []eval.ConfigFunc{eval.EvalContext(other)}, wantOther}, {"default context", nil, wantAbs}, {"case context", []eval.ConfigFunc{eval.EvalContext(ctx)}, wantAbs}}
+		rng.Shuffle(len(runs), func(i, j int) { runs[i], runs[j] = runs[j], runs[i] })
+		for _, rn := range runs {
 			c.Eval(1)
-			desc := fmt.Sprintf("Eval(\"res\", Expr(\"abs\", col(%q))) with the %s", ic.name, rn.name)
+			desc := fmt.Sprintf("Eval(\"res\", Expr(\"abs\", col(%q))) with the %s (same Expression value as the other contexts)", ic.name, rn.name)
 			exprs = append(exprs, desc)
 			var res qframe.QFrame
-			if !c.GuardFail("eval-ctx", desc, func() { res = root.QF.Eval("res", qframe.Expr("abs", types.ColumnName(ic.name)), rn.cfg...) }) {
+			if !c.GuardFail("eval-ctx", desc, func() { res = root.QF.Eval("res", absExpr, rn.cfg...) }) {
 				continue
 			}
 			if res.Err != nil {
